@@ -474,11 +474,20 @@ func replaceEnvReferences(s, refStart, refEnd string) string {
 		endIndex += index
 		if endIndex > index+len(refStart) {
 			ref := s[index : endIndex+len(refEnd)]
-			s = strings.Replace(s, ref, os.Getenv(ref[len(refStart):len(ref)-len(refEnd)]), -1)
+			val := os.Getenv(ref[len(refStart) : len(ref)-len(refEnd)])
+			// the value is inserted as it is and not looked at again: a
+			// value containing its own placeholder would otherwise be
+			// expanded forever
+			s = s[:index] + val + s[endIndex+len(refEnd):]
+			index += len(val)
 		} else {
 			return s
 		}
-		index = strings.Index(s, refStart)
+		next := strings.Index(s[index:], refStart)
+		if next == -1 {
+			break
+		}
+		index += next
 	}
 	return s
 }
